@@ -339,6 +339,28 @@ def run_chain(spec, work, ctx):
                   [q, stats, lookup], declared, watch, empties)
     if e:
         return f'mapping without scratch raised {e[-300:]}'
+    # a blank obsm_key (what an empty field of a configuration template
+    # gives) is not a request to store anything: the run succeeds and the
+    # query file stays as it is
+    mdir4 = outd / 'map_blank_obsm'
+    mdir4.mkdir()
+    cfg4 = pw.mapping_config(mdir4, q, stats, lookup, chunk_size=4,
+                             n_processors=2)
+    cfg4['tmp_dir'] = str(scratch)
+    cfg4['obsm_key'] = ''
+
+    def do_map4():
+        with pw.quiet():
+            run_mapping(config=cfg4,
+                        output_path=cfg4['extended_result_path'],
+                        log_path=cfg4['log_path'],
+                        hdf5_output_path=cfg4['hdf5_result_path'])
+    e = monitored(ctx, 'mapping-blank-obsm-key', do_map4,
+                  [q, stats, lookup], [mdir4], watch, empties)
+    if e:
+        ctx.V('C19:blank-obsm-key-run-fails',
+              f'mapping with obsm_key="" raised {e[-300:]}')
+    ctx.bump('blank_obsm_key_runs')
     # storing results in the query file is the one case in which an input
     # may change - and then only its obsm
     q3 = ind / 'query_obsm.h5ad'
